@@ -165,6 +165,15 @@ func vfhC12ClassifyHunt() {
 	vfAssert(g.IsPoint() == isPt && g.IsLineString() == isLn && g.IsPolygon() == isRect, "AsGeometry type follows the classification")
 	vfAssert(e.Contains(a) && e.Contains(b), "the corners are contained")
 	vfAssert(vfAnd(mn.X <= mx.X, mn.Y <= mx.Y), "min <= max")
+	// Center is the midpoint of the two intervals, correctly rounded, for ordinates
+	// whose sum cannot overflow (|v| <= 1e300)
+	small := func(v float64) bool { return vfAnd(v >= -1e300, v <= 1e300) }
+	if vfAnd(vfAnd(small(a.X), small(a.Y)), vfAnd(small(b.X), small(b.Y))) {
+		c, ok := e.Center().XY()
+		vfAssert(ok, "Center of a non-empty envelope")
+		vfAssert(vfAnd(c.X == (mn.X+mx.X)*0.5, c.Y == (mn.Y+mx.Y)*0.5), "Center is (min+max)/2, correctly rounded")
+		vfAssert(vfAnd(vfAnd(mn.X <= c.X, c.X <= mx.X), vfAnd(mn.Y <= c.Y, c.Y <= mx.Y)), "Center lies inside the envelope")
+	}
 	vfReach("end")
 }
 
